@@ -314,6 +314,12 @@ def check(ctx):
     derive_shape(ctx)
     status_array_shape(ctx)
     guards.check_applied_unless_empty(ctx, [f for f in ctx.prog.all_functions() if f.module.name.startswith('adsg_core.graph.')])
+    guards.check_accumulators_threaded(ctx, [f for f in ctx.prog.all_functions() if f.module.name.startswith('adsg_core.graph.')])
+    # the influence matrix (choice activation order) is derived from the graph and its start nodes: it is rebuilt
+    # whenever set_influence_matrix runs, never kept from an earlier initialisation of the same object
+    from ..rules import invalidate as _inv
+    _inv.check_unconditional_recompute(ctx, f'{DSG}.set_influence_matrix', '_influence_matrix')
+    ctx.floor('A5acc', 8, 'accumulated derived-only removals')
     ctx.floor('A5e', 2, 'guarded applications of a computed modification (incompatibility removal, floating nodes)')
     ctx.floor('A4', 15, 'derivation walks')
     ctx.floor('A5', 12, 'apply/resolve shape clauses')
@@ -322,6 +328,10 @@ def check(ctx):
 from ..selftest import V  # noqa: E402
 
 VARIANTS = [
+    V('influence-matrix-kept-from-earlier-initialisation', 'graph/adsg.py',
+      [("        try:\n            self._influence_matrix = InfluenceMatrix(self)\n        except ValueError:\n            pass\n", "        if self._influence_matrix is None:\n            try:\n                self._influence_matrix = InfluenceMatrix(self)\n            except ValueError:\n                pass\n")], key='always-reassigns'),
+    V('floating-roots-removed-independently', 'graph/adsg_basic.py',
+      [("                graph, floating_node, start_nodes, removed_edges=removed_edges, removed_nodes=removed_nodes)", "                graph, floating_node, start_nodes)")], key='A5acc'),
     V('single-incompatible-node-kept', 'graph/adsg.py',
       [("            if len(removed_nodes) > 0:\n                dsg = dsg.get_for_adjusted(removed_nodes=removed_nodes)", "            if len(removed_nodes) > 1:\n                dsg = dsg.get_for_adjusted(removed_nodes=removed_nodes)")], key='A5e'),
     V('floating-removal-needs-both', 'graph/adsg_basic.py',
